@@ -336,6 +336,8 @@ func allBMP() []uint32 {
 // ---- the property ----
 
 func runC09(c *mon.Ctx) {
+	encodeAliasing(c, "cmap", c.N(300, 20000), cmapAliasEncoders)
+	c.Require("cmap:encode-aliasing-checked")
 	// ------------------------------------------------------------------
 	// format 4: library encoder
 	c.Stratum("fmt4", c.N(2400, 120000), func(k *mon.Case) { c09fmt4(k, 0) })
